@@ -43,9 +43,12 @@ def ciede_steps():
                                  R.ite(R.le(R.abs(R.sub(e["h2p"], e["h1p"])), 180), R.sub(e["h2p"], e["h1p"]),
                                        R.ite(R.le(e["h2p"], e["h1p"]), R.add(R.sub(e["h2p"], e["h1p"]), 360), R.sub(R.sub(e["h2p"], e["h1p"]), 360))))))
     A(("dHp", lambda R, e: R.mul(2, R.sqrt(R.mul(e["c1p"], e["c2p"])), R.f("sin", deg(R, R.div(e["dhp"], 2))))))
-    # mean hue: palette's documented single-wrap form (+360 only); identical in every cosine of T
+    # mean hue, Sharma eq. 14: three cases.  (The single-wrap form `(sum + 360)/2` for every |dh| > 180 agrees in the 360-periodic cosines of
+    # T but not in the Gaussian of delta-theta: defect F12, repaired in /repo.)
     A(("hbar", lambda R, e: R.ite(zero_chroma(R, e), R.add(e["h1p"], e["h2p"]),
-                                  R.ite(R.gt(R.abs(R.sub(e["h2p"], e["h1p"])), 180), R.div(R.add(e["h1p"], e["h2p"], 360), 2), R.div(R.add(e["h1p"], e["h2p"]), 2)))))
+                                  R.ite(R.gt(R.abs(R.sub(e["h2p"], e["h1p"])), 180),
+                                        R.ite(R.lt(R.add(e["h1p"], e["h2p"]), 360), R.div(R.add(e["h1p"], e["h2p"], 360), 2), R.div(R.sub(R.add(e["h1p"], e["h2p"]), 360), 2)),
+                                        R.div(R.add(e["h1p"], e["h2p"]), 2)))))
     A(("lbar", lambda R, e: R.div(R.add(R.s("p.l"), R.s("q.l")), 2)))
     A(("cbarp", lambda R, e: R.div(R.add(e["c1p"], e["c2p"]), 2)))
     A(("T", lambda R, e: R.add(R.sub(1, R.mul("0.17", R.f("cos", deg(R, R.sub(e["hbar"], 30))))),
